@@ -110,6 +110,20 @@ typedef Str Elem; static const char* kElem = "str";
 #endif
 static Elem mk(ll v) { return mkE(v, static_cast<Elem*>(nullptr)); }
 
+// an INPUT (non-forward) iterator over a buffer of elements: selects ArrayShifter::Insert (one InsertCrt per item)
+struct InIt
+{
+	typedef std::input_iterator_tag iterator_category; typedef Elem value_type; typedef ptrdiff_t difference_type;
+	typedef const Elem* pointer; typedef const Elem& reference;
+	const Elem* p;
+	reference operator*() const { return *p; }
+	pointer operator->() const { return p; }
+	InIt& operator++() { ++p; return *this; }
+	InIt operator++(int) { InIt t = *this; ++p; return t; }
+	bool operator==(InIt o) const { return p == o.p; }
+	bool operator!=(InIt o) const { return p != o.p; }
+};
+
 // ---------------------------------------------------------------- container adapters
 template<class C> struct MomoOps      // momo::Array / ArrayIntCap / SegmentedArray
 {
@@ -126,6 +140,10 @@ template<class C> struct MomoOps      // momo::Array / ArrayIntCap / SegmentedAr
 	static void reserve(C& c, size_t n) { c.Reserve(n); }
 	static void shrink(C& c, size_t n) { c.Shrink(n); }
 	static bool assign(C&, size_t, const Elem&) { return false; }
+	static bool assignRange(C&, const std::vector<Elem>&) { return false; }
+	static void insertInput(C& c, size_t j, const std::vector<Elem>& v) { c.Insert(j, InIt{v.data()}, InIt{v.data() + v.size()}); }
+	static void removeBack(C& c, size_t n) { c.RemoveBack(n); }
+	static void clear(C& c, bool shrink) { c.Clear(shrink); }
 };
 template<class C> struct StdOps       // momo::stdish::vector / vector_intcap
 {
@@ -142,6 +160,10 @@ template<class C> struct StdOps       // momo::stdish::vector / vector_intcap
 	static void reserve(C& c, size_t n) { c.reserve(n); }
 	static void shrink(C& c, size_t n) { if (n == c.size()) c.shrink_to_fit(); }
 	static bool assign(C& c, size_t n, const Elem& e) { c.assign(n, e); return true; }
+	static bool assignRange(C& c, const std::vector<Elem>& v) { c.assign(v.begin(), v.end()); return true; }
+	static void insertInput(C& c, size_t j, const std::vector<Elem>& v) { c.insert(c.cbegin() + j, InIt{v.data()}, InIt{v.data() + v.size()}); }
+	static void removeBack(C& c, size_t n) { for (size_t i = 0; i < n; ++i) c.pop_back(); }
+	static void clear(C& c, bool) { c.clear(); }
 };
 
 static std::vector<std::string> split(const std::string& s, char sep)
@@ -191,13 +213,21 @@ static void runScript(const std::vector<std::string>& ops, CapFn capFn)
 				if (o == "ins1") { if (ref) Ops::insert1(c, j, static_cast<const Elem&>(c[i])); else { Elem e = mk(v); Ops::insert1(c, j, e); } }
 				else { if (ref) Ops::insertR(c, j, std::move(c[i])); else Ops::insertR(c, j, mk(v)); }
 			}
-			else if (o == "insr")
+			else if (o == "insr" || o == "insi")
 			{
 				size_t j = std::stoull(w[1]); std::vector<Elem> vs; std::vector<ll> tv;
 				if (w.size() > 2 && !w[2].empty()) for (const std::string& x : split(w[2], ',')) { tv.push_back(std::stoll(x)); vs.push_back(mk(tv.back())); }
 				twin.insert(twin.begin() + j, tv.begin(), tv.end());
-				Ops::insertRange(c, j, vs);
+				if (o == "insr") Ops::insertRange(c, j, vs); else Ops::insertInput(c, j, vs);
 			}
+			else if (o == "asgr")
+			{
+				std::vector<Elem> vs; std::vector<ll> tv;
+				if (w.size() > 1 && !w[1].empty()) for (const std::string& x : split(w[1], ',')) { tv.push_back(std::stoll(x)); vs.push_back(mk(tv.back())); }
+				if (Ops::assignRange(c, vs)) twin = tv;
+			}
+			else if (o == "rb") { size_t n = std::stoull(w[1]); twin.resize(twin.size() - n); Ops::removeBack(c, n); }
+			else if (o == "clr") { twin.clear(); Ops::clear(c, w[1] == "1"); }
 			else if (o == "rm")
 			{
 				size_t j = std::stoull(w[1]), n = std::stoull(w[2]);
